@@ -12,9 +12,14 @@
    Over an exact field both summations are the left fold (Proofs/PathIdxR.v),
    so the theorems over R do not depend on the tags.
 
-   Flag [fb] ("fallback"): false = the code as it is (falling out of the search
-   loop raises BugException in T2t / RuntimeError in point); true = the obvious
-   repair (fall back to the end of the last segment).  Everything else is shared. *)
+   Two flags select the variant of the code; everything else is shared.
+   [fb] ("fallback"): false = the code before the repair (falling out of the
+   search loop raises BugException in T2t / RuntimeError in point); true = the
+   repaired code: a T in [0,1] beyond the floating-point sum of the fractions
+   belongs to the end (t = 1) of the last segment of nonzero length (of the last
+   segment if there is none), `_last_nonzero_length_index`.
+   [cl] ("clamp"): false = T2t returns the raw quotient (T - T0)/seg_length,
+   which can exceed 1 by rounding; true = the repaired `min(quotient, 1.0)`. *)
 From Coq Require Import ZArith List Bool Arith.
 From SVP Require Import Base.Num.
 Import ListNotations.
@@ -79,31 +84,44 @@ Section PathIdx.
   Definition cum (comp : bool) (fs : list (bool * K)) (k : nat) : K :=
     pysum comp (firstn k fs).
 
+  (* ---------------- _last_nonzero_length_index (repaired code only) ---------------- *)
+  (* for idx in reversed(range(len)): if _lengths[idx] > 0: return idx;  return len - 1
+     = the last index whose length is > 0, scanning forward and remembering *)
+  Fixpoint last_pos_from (fs : list (bool * K)) (k best : Z) : Z :=
+    match fs with
+    | [] => best
+    | (_, l) :: r => last_pos_from r (k + 1)%Z (if ltb N (zero N) l then k else best)
+    end.
+  Definition fallback_idx (fs : list (bool * K)) : Z :=
+    last_pos_from fs 0%Z (last_idx (length fs)).
+
   (* ---------------- T2t ---------------- *)
-  Fixpoint T2t_loop (fs : list (bool * K)) (k : Z) (T0 T : K) : found K :=
+  (* min(q, 1.0): Python's min returns its first argument unless 1.0 < q *)
+  Definition clamp1 (cl : bool) (q : K) : K := if cl then nmin N q (one N) else q.
+  Fixpoint T2t_loop (cl : bool) (fs : list (bool * K)) (k : Z) (T0 T : K) : found K :=
     match fs with
     | [] => Fell
     | (ex, l) :: r =>
         let T1 := add N T0 l in
         if leb N T T1                                   (* T1 >= T *)
         then if ex && eqb N l (zero N) then ZeroDiv
-             else Found k (div N (sub N T T0) l)
-        else T2t_loop r (k + 1)%Z T1 T
+             else Found k (clamp1 cl (div N (sub N T T0) l))
+        else T2t_loop cl r (k + 1)%Z T1 T
     end.
   Definition in01 (T : K) : bool := leb N (zero N) T && leb N T (one N).
-  Definition T2t_fr (fb : bool) (fs : list (bool * K)) (T : K) : res (Z * K) :=
+  Definition T2t_fr (cl fb : bool) (fs : list (bool * K)) (T : K) : res (Z * K) :=
     if eqb N T (one N) then Ok (last_idx (length fs), one N)
     else if eqb N T (zero N) then Ok (0%Z, zero N)
-    else match T2t_loop fs 0%Z (zero N) T with
+    else match T2t_loop cl fs 0%Z (zero N) T with
          | Found k t => Ok (k, t)
          | ZeroDiv => Err EZeroDiv
          | Fell => if in01 T                               (* assert 0 <= T <= 1 *)
-                   then if fb then Ok (last_idx (length fs), one N) else Err EBug
+                   then if fb then Ok (fallback_idx fs, one N) else Err EBug
                    else Err EAssert
          end.
-  Definition T2t (comp fb : bool) (tl : list (bool * K)) (T : K) : res (Z * K) :=
-    T2t_fr fb (fractions comp tl) T.
-  Definition T2t_fixed := T2t_fr true.
+  Definition T2t (comp cl fb : bool) (tl : list (bool * K)) (T : K) : res (Z * K) :=
+    T2t_fr cl fb (fractions comp tl) T.
+  Definition T2t_fixed := T2t_fr true true.      (* the repaired code *)
 
   (* ---------------- point: which segment, at which parameter ---------------- *)
   Fixpoint point_loop (fs : list (bool * K)) (k : Z) (s T : K) : found K :=
@@ -124,7 +142,7 @@ Section PathIdx.
     else match point_loop fs 0%Z (zero N) T with
          | Found k t => Ok (k, t)
          | ZeroDiv => Err EZeroDiv
-         | Fell => if fb && in01 T then Ok (last_idx (length fs), one N) else Err ERuntime
+         | Fell => if fb && in01 T then Ok (fallback_idx fs, one N) else Err ERuntime
          end.
   Definition point_search (comp fb : bool) (tl : list (bool * K)) (T : K) : res (Z * K) :=
     point_fr fb (fractions comp tl) T.
